@@ -16,6 +16,7 @@ from ._transform import (
     Stack,
     Transform,
 )
+from ._transform.accumulate import _check_expects_grad
 from ._utils import _as_tensor_list, _check_optional_positive_chunk_size, _get_leaf_tensors
 
 
@@ -102,6 +103,12 @@ def mtl_backward(
         raise ValueError("`losses` cannot be empty")
     if len(losses) != len(tasks_params):
         raise ValueError("`losses` and `tasks_params` should have the same size.")
+
+    # The gradients w.r.t. the parameters of each task are accumulated before the next tasks are
+    # differentiated, so the parameters have to be checked up front for a rejected call to leave
+    # all .grad fields unchanged.
+    for param in [*shared_params, *(param for task_params in tasks_params for param in task_params)]:
+        _check_expects_grad(param)
 
     # Task-specific transforms. Each of them computes and accumulates the gradient of the task's
     # loss w.r.t. the task's specific parameters, and computes and backpropagates the gradient of
